@@ -7,6 +7,7 @@
 
 include!(concat!(env!("OUT_DIR"), "/ls_mods.rs"));
 
+mod apisim;
 mod check;
 mod corpus;
 mod lsp;
